@@ -61,7 +61,11 @@ func VerifFinalContentIsNotified() {
 	exists := true
 	for i := 0; i < ops; i++ {
 		gap := vnd.IntRange("pause100ms", 0, vnd.Bound("pause_max", 30))
-		time.Sleep(time.Duration(gap) * 100 * time.Millisecond)
+		pause := time.Duration(gap) * 100 * time.Millisecond
+		if i == ops-1 && vnd.Bool("justAfterTheNotification") {
+			pause += 15 * time.Millisecond // the last change may land right after the additional wait of the previous one
+		}
+		time.Sleep(pause)
 		switch vnd.Choose("op", vnd.Bound("op_kinds", 1)) {
 		case 0: // rewrite (or re-create) the file
 			if os.WriteFile(file, []byte{'v', byte('1' + i)}, 0o644) != nil {
